@@ -3,7 +3,7 @@ import ast
 import copy as _copy
 
 from ..core import (U, walk_local, calls_in, call_name, dotted, const, NOCONST, params, stores_in, single_def,
-                    expand, path_conditions, walk_stmts, arg_for)
+                    expand, path_conditions, walk_stmts, arg_for, enclosing_func)
 from ..lin import lin, Lin
 
 PGF = 'lib_guesser/pcfg_grammar.py'
@@ -480,3 +480,147 @@ def interval_guard(tests, var, lo, hi):
         if got != want:
             verdict = 'wrong'
     return verdict
+
+
+_MUTATORS = {'append', 'extend', 'insert', 'remove', 'pop', 'clear', 'sort', 'reverse', 'add', 'discard', 'update', 'setdefault',
+             'popitem', 'appendleft', 'popleft', 'subtract', '__setitem__', '__delitem__'}
+_MUTATING_FUNCS = {'heapq.heappush', 'heapq.heappop', 'heapq.heapify', 'heapq.heapreplace', 'heapq.heappushpop', 'bisect.insort',
+                   'bisect.insort_left', 'bisect.insort_right', 'random.shuffle'}
+_READ_ONLY_FUNCS = {'len', 'sorted', 'enumerate', 'sum', 'min', 'max', 'list', 'set', 'tuple', 'dict', 'str', 'zip', 'iter', 'any', 'all',
+                    'isinstance', 'print', 'range', 'reversed', 'frozenset', 'repr', 'bool', 'map', 'filter', 'copy.copy',
+                    'copy.deepcopy', 'json.dumps', 'heapq.nsmallest', 'heapq.nlargest'}
+
+
+def builds_mutable(val):
+    return isinstance(val, (ast.Dict, ast.List, ast.Set, ast.ListComp, ast.DictComp, ast.SetComp)) or \
+        (isinstance(val, ast.Call) and (call_name(val) or '').rpartition('.')[2] in ('dict', 'list', 'set', 'Counter', 'defaultdict',
+                                                                                   'OrderedDict', 'deque', 'bytearray'))
+
+
+def _place_uses(root, match, resolve=None, depth=2):
+    """How the code under `root` treats the object denoted by expressions for which match(node) holds:
+    ('mutated' | 'escapes' | 'read-only', node).  A call of a repository function is followed into the parameter (bounded)."""
+    verdict, where = 'read-only', None
+    parents = {}
+    for n in ast.walk(root):
+        for c in ast.iter_child_nodes(n):
+            parents[id(c)] = n
+    for n in ast.walk(root):
+        if not match(n):
+            continue
+        par = parents.get(id(n))
+        if isinstance(par, ast.Attribute) and par.attr in _MUTATORS and isinstance(parents.get(id(par)), ast.Call) \
+                and parents[id(par)].func is par:
+            return 'mutated', par
+        if isinstance(par, ast.Subscript) and par.value is n and isinstance(par.ctx, (ast.Store, ast.Del)):
+            return 'mutated', par
+        if isinstance(par, ast.AugAssign) and par.target is n:
+            return 'mutated', par
+        if isinstance(par, ast.Call) and n in par.args:
+            cn = call_name(par) or ''
+            if cn in _MUTATING_FUNCS:
+                return 'mutated', par
+            if cn in _READ_ONLY_FUNCS:
+                continue
+            callee = resolve(par) if resolve else None
+            if callee is not None and depth > 0:
+                ps = [a.arg for a in callee.args.args]
+                k = par.args.index(n)
+                if isinstance(par.func, ast.Attribute) and ps and ps[0] in ('self', 'cls'):
+                    k += 1
+                if k < len(ps):
+                    pn = ps[k]
+                    v2, w2 = _place_uses(callee, lambda x: isinstance(x, ast.Name) and x.id == pn and isinstance(x.ctx, ast.Load),
+                                         resolve, depth - 1)
+                    if v2 == 'mutated':
+                        return 'mutated', par
+                    if v2 == 'read-only':
+                        continue
+            if verdict == 'read-only':
+                verdict, where = 'escapes', par
+        # nested containers: place[k].append(..) / place[k][j] = ..
+        if isinstance(par, ast.Subscript) and par.value is n and isinstance(par.ctx, ast.Load):
+            gp = parents.get(id(par))
+            if (isinstance(gp, ast.Attribute) and gp.attr in _MUTATORS) or \
+                    (isinstance(gp, ast.Subscript) and gp.value is par and isinstance(gp.ctx, (ast.Store, ast.Del))):
+                return 'mutated', gp
+    return verdict, where
+
+
+def _attr_uses(repo, cls, name):
+    """How the repository treats the attribute <object>.<name> of instances of `cls`:
+    ('rebound-in-init' | 'mutated' | 'escapes' | 'read-only', node)."""
+    for fn in cls.body:
+        if isinstance(fn, (ast.FunctionDef, ast.AsyncFunctionDef)) and fn.name == '__init__' and fn.args.args:
+            spell = '%s.%s' % (fn.args.args[0].arg, name)
+            for st in fn.body:
+                if isinstance(st, (ast.Assign, ast.AnnAssign)):
+                    tg = st.targets if isinstance(st, ast.Assign) else [st.target]
+                    if any(U(t) == spell for t in tg) and getattr(st, 'value', None) is not None:
+                        return 'rebound-in-init', st
+    verdict, where = 'read-only', None
+    for rel, m in sorted(repo.modules.items()):
+        def resolve(call, m=m):
+            cn = call_name(call) or ''
+            return m.funcs.get(cn.rpartition('.')[2]) if cn.rpartition('.')[0] in ('', 'self') else None
+        v, w = _place_uses(m.tree, lambda x: isinstance(x, ast.Attribute) and x.attr == name and isinstance(x.ctx, ast.Load), resolve)
+        if v == 'mutated':
+            return v, w
+        if v == 'escapes' and verdict == 'read-only':
+            verdict, where = v, w
+    return verdict, where
+
+
+def no_shared_class_state(ctx, rule, prefixes, floor, why):
+    """Per-object state stays per object: a mutable container bound in a class body is one object shared by every instance.  It is a
+    violation when the methods of the class change it in place through self (and __init__ does not re-bind it first), undecided
+    when it is handed to a function the analysis does not know, and harmless when it is only read (a constant table)."""
+    n = 0
+    bad = False
+    for rel, m in sorted(ctx.repo.modules.items()):
+        if not rel.startswith(tuple(prefixes)):
+            continue
+        for cname, cls in m.classes.items():
+            for st in cls.body:
+                n += 1
+                tgts, val = [], None
+                if isinstance(st, ast.Assign):
+                    tgts, val = [t.id for t in st.targets if isinstance(t, ast.Name)], st.value
+                elif isinstance(st, ast.AnnAssign) and isinstance(st.target, ast.Name) and st.value is not None:
+                    tgts, val = [st.target.id], st.value
+                if val is None or not builds_mutable(val):
+                    continue
+                for tgt in tgts:
+                    verdict, where = _attr_uses(ctx.repo, cls, tgt)
+                    q = '%s::%s' % (rel, cname)
+                    if verdict == 'mutated':
+                        bad = True
+                        ctx.bad(rule, q, 'class-level mutable attribute %s = %s, changed in place by %s' % (tgt, U(val)[:30], U(where)[:60]),
+                                why, None, st)
+                    elif verdict == 'escapes':
+                        bad = True
+                        ctx.unk(rule, q, 'class-level mutable attribute %s is passed to %s, which may or may not change it' % (tgt, U(where)[:60]))
+    if ctx.floor(rule, prefixes[0], n, floor, 'class-body statements in %s' % ', '.join(prefixes)) and not bad:
+        ctx.ok(rule, prefixes[0], 'no class binds at class level a mutable object that its methods change in place')
+
+
+def no_aliased_containers(ctx, rule, prefixes, floor, why):
+    """Distinct stores get distinct containers: `a[k1] = a[k2] = []` binds ONE new list to both places, so whatever is appended
+    through one is seen through the other.  Flagged when a freshly built mutable container is the value of an assignment with two
+    or more targets of which at least one is a persistent place (subscript or attribute)."""
+    n = 0
+    bad = False
+    for rel, m in sorted(ctx.repo.modules.items()):
+        if not rel.startswith(tuple(prefixes)):
+            continue
+        for node in ast.walk(m.tree):
+            if not isinstance(node, ast.Assign):
+                continue
+            n += 1
+            if len(node.targets) >= 2 and builds_mutable(node.value) and any(not isinstance(t, ast.Name) for t in node.targets):
+                bad = True
+                fn = enclosing_func(m, node)
+                q = '%s::%s' % (rel, next((k for k, f in m.funcs.items() if f is fn), ''))
+                ctx.bad(rule, q, 'one container for several places: %s' % U(node)[:80], why, None, node)
+    if ctx.floor(rule, prefixes[0], n, floor, 'assignments in %s' % ', '.join(prefixes)) and not bad:
+        ctx.ok(rule, prefixes[0], 'no freshly built container is bound to two places by one chained assignment (%d assignments)' % n)
